@@ -20,6 +20,7 @@ TEXT = {
  "C13": ("Long bounded-live-size churn with the allocation bound checked at every step and termination restated as a bound on equality callbacks.", "online monitor of allocation size and probe work during stress workloads"),
  "C14": ("Entry-style call chains started exactly on full / tombstone-saturated / unallocated / random-layout states, compared with the model.", "runtime monitoring: reference-model oracle on targeted states"),
  "C15": ("Multi-key mutable borrows with duplicates, absent keys, colliding keys and unlawful closures; address-disjointness monitor plus Miri's aliasing model.", "address-overlap monitor + Miri borrow tracker"),
+ "C16": ("Partial: the sending/sharing clause, and of the borrow clause only 'mutable access needs a mutable borrow of the collection'. Marker-typed keys, values, hashers and allocators report the thread of every access; every public type is offered to a second thread by value and by reference, the compiler decides from X: Send / X: Sync whether the offer is taken, and the monitor flags any access the marker kind forbids. Methods handing out mutable access are additionally called through a shared reference (a fallback is selected unless they accept &self) and aliasing with live shared references is observed by address. Variance and borrow lifetimes cannot be observed in an execution and are not claimed.", "thread-confinement and aliasing monitors over compiler-resolved offers (inherent method preferred over blanket fallback)"),
  "C17": ("The real arithmetic functions compared with u128 reference arithmetic over exhaustive and boundary ranges under both group widths.", "differential monitor of pure functions through hooks (exhaustive sub-ranges)"),
  "C18": ("Cross-lane transcript comparison of identical seeded histories plus primitive-by-primitive comparison with the byte-wise definition.", "differential execution of two builds + primitive oracle"),
  "C19": ("Instrumented rayon consumers under real pools with injected delays, exhaustive small split trees through a hook, TSan and Miri race detection.", "offline exactly-once checker over consumer event logs + race detectors (TSan, Miri)"),
